@@ -44,7 +44,7 @@ TFdHist ==
 
 TMoment ==
     /\ IsEvent("moment")
-    /\ MomentCell(Ev.N, Ev.scale, Ev.mass, Ev.grid, Ev.bM, Ev.bN) /\ Ev.grid \in GridKinds /\ Ev.bM \in Bases /\ Ev.bN \in Bases
+    /\ MomentCell(Ev.N, Ev.scale, Ev.mass, Ev.grid, Ev.bM, Ev.bN, Ev.hist) /\ Ev.hist \in GridHist /\ Ev.grid \in GridKinds /\ Ev.bM \in Bases /\ Ev.bN \in Bases
     /\ Ev.out = "ok"
     \* identification table: row = moment computed by the code, column = weight the deviation was built for
     /\ \A m \in Moments, w \in Moments :
